@@ -371,7 +371,7 @@ pub const MALFORMED_TARGETS: &[&str] = &[
     "public_values", "degree_bits", "instances", "lookup_terminals", "commitments.permutation", "common.lookups", "common.preprocessed.instances",
     "params.log_blowup", "params.num_queries", "params.log_final_poly_len", "params.commit_pow_bits", "params.query_pow_bits",
 ];
-pub const OPS: &[&str] = &["shorten", "lengthen", "empty", "inc", "dec"];
+pub const OPS: &[&str] = &["shorten", "lengthen", "empty", "inc", "dec", "toggle"];
 
 fn pick(n: usize, pos: &Value) -> usize {
     match pos {
@@ -414,6 +414,23 @@ fn alter_count(c: &mut usize, op: &str) -> Result<Value, String> {
     Ok(json!({"before": before, "after": *c}))
 }
 fn alter_opt_vec<T: Clone>(v: &mut Option<Vec<T>>, op: &str) -> Result<Value, String> {
+    alter_opt_vec_like(v, op, None)
+}
+/// `toggle`: an optional part is removed when present and added (as a copy of `like`) when absent.
+fn alter_opt_vec_like<T: Clone>(v: &mut Option<Vec<T>>, op: &str, like: Option<&Vec<T>>) -> Result<Value, String> {
+    if op == "toggle" {
+        return match (v.is_some(), like) {
+            (true, _) => {
+                *v = None;
+                Ok(json!({"optional": "removed"}))
+            }
+            (false, Some(l)) => {
+                *v = Some(l.clone());
+                Ok(json!({"optional": "added"}))
+            }
+            (false, None) => Err("nothing to model the added part on".into()),
+        };
+    }
     match v.as_mut() {
         Some(x) => alter_vec(x, op),
         None => Err("optional list is absent in this proof shape".into()),
@@ -422,15 +439,27 @@ fn alter_opt_vec<T: Clone>(v: &mut Option<Vec<T>>, op: &str) -> Result<Value, St
 fn alter_ov<EF: Clone>(o: &mut OpenedValues<EF>, field: &str, op: &str) -> Option<Result<Value, String>> {
     Some(match field {
         "trace_local" => alter_vec(&mut o.trace_local, op),
-        "trace_next" => alter_opt_vec(&mut o.trace_next, op),
-        "preprocessed_local" => alter_opt_vec(&mut o.preprocessed_local, op),
-        "preprocessed_next" => alter_opt_vec(&mut o.preprocessed_next, op),
+        "trace_next" => {
+            let like = o.trace_local.clone();
+            alter_opt_vec_like(&mut o.trace_next, op, Some(&like))
+        }
+        "preprocessed_local" => {
+            let like = o.trace_local.clone();
+            alter_opt_vec_like(&mut o.preprocessed_local, op, Some(&like))
+        }
+        "preprocessed_next" => {
+            let like = o.trace_local.clone();
+            alter_opt_vec_like(&mut o.preprocessed_next, op, Some(&like))
+        }
         "quotient_chunks" => alter_vec(&mut o.quotient_chunks, op),
         "quotient_chunks[0]" => match o.quotient_chunks.first_mut() {
             Some(c) => alter_vec(c, op),
             None => Err("no quotient chunk".into()),
         },
-        "random" => alter_opt_vec(&mut o.random, op),
+        "random" => {
+            let like = o.quotient_chunks.first().cloned();
+            alter_opt_vec_like(&mut o.random, op, like.as_ref())
+        }
         _ => return None,
     })
 }
@@ -1120,6 +1149,32 @@ macro_rules! batch_body {
                         },
                         "degree_bits" => alter_vec(&mut bp.degree_bits, op),
                         "lookup_terminals" => alter_vec(&mut bp.lookup_terminals, op),
+                        "lookup_terminals[0]" | "lookup_terminals[last]" if op == "toggle" => {
+                            let n = bp.lookup_terminals.len();
+                            if n == 0 {
+                                return Err("no lookup terminal list entry".into());
+                            }
+                            let i = if target.ends_with("[0]") { 0 } else { n - 1 };
+                            let like = bp.lookup_terminals.iter().flatten().next().cloned();
+                            match bp.lookup_terminals[i].take() {
+                                Some(_) => Ok(json!({"terminal": "removed", "index": i})),
+                                None => {
+                                    bp.lookup_terminals[i] = Some(like.unwrap_or(p3_lookup::LookupTerminal(<Self as Family>::EF::ZERO)));
+                                    Ok(json!({"terminal": "added", "index": i}))
+                                }
+                            }
+                        }
+                        "commitments.permutation" | "commitments.random" if op == "toggle" => {
+                            let like = bp.commitments.main.clone();
+                            let slot = if target.ends_with("permutation") { &mut bp.commitments.permutation } else { &mut bp.commitments.random };
+                            match slot.take() {
+                                Some(_) => Ok(json!({"commitment": "removed"})),
+                                None => {
+                                    *slot = Some(like);
+                                    Ok(json!({"commitment": "added"}))
+                                }
+                            }
+                        }
                         "commitments.permutation" if op == "empty" => match bp.commitments.permutation.take() {
                             Some(_) => Ok(json!({"permutation_commitment": "removed"})),
                             None => Err("no permutation commitment in this configuration".into()),
@@ -1468,11 +1523,76 @@ pub mod batch_fib_kb_zk {
     batch_body!(proof);
 }
 
+pub mod batch_fib_kb_zk_pow {
+    use p3_test_utils::koala_bear_params::*;
+    use rand::SeedableRng;
+    use rand::rngs::SmallRng;
+    const SALT_ELEMS: usize = 4;
+    type HidingValMmcs = p3_merkle_tree::MerkleTreeHidingMmcs<<F as Field>::Packing, <F as Field>::Packing, MyHash, MyCompress, SmallRng, 2, DIGEST_ELEMS, SALT_ELEMS>;
+    type HidingChallengeMmcs = ExtensionMmcs<F, Challenge, HidingValMmcs>;
+    type MyPcs = p3_fri::HidingFriPcs<F, Dft, HidingValMmcs, HidingChallengeMmcs, SmallRng>;
+    type MyConfig = StarkConfig<MyPcs, Challenge, Challenger>;
+    type RecHidingValMmcs = p3_recursion::pcs::fri::RecValHidingMmcs<F, DIGEST_ELEMS, SALT_ELEMS, MyHash, MyCompress, SmallRng>;
+    type InP = p3_recursion::pcs::fri::InputProofTargets<F, Challenge, RecHidingValMmcs>;
+    type InnerFri = p3_recursion::pcs::fri::HidingFriProofTargets<F, Challenge, p3_recursion::pcs::fri::RecExtensionValMmcs<F, Challenge, DIGEST_ELEMS, RecHidingValMmcs>, InP, p3_recursion::pcs::fri::Witness<F>>;
+    type FriT = p3_recursion::pcs::fri::FriProofTargets<F, Challenge, p3_recursion::pcs::fri::RecExtensionValMmcs<F, Challenge, DIGEST_ELEMS, RecHidingValMmcs>, InP, p3_recursion::pcs::fri::Witness<F>>;
+    type PcsProofT = <MyPcs as p3_commit::Pcs<Challenge, Challenger>>::Proof;
+    type FriP = p3_fri::FriProof<Challenge, HidingChallengeMmcs, F, Vec<p3_commit::BatchOpening<F, HidingValMmcs>>>;
+    type AirT = super::TwoAir;
+    const P2: p3_recursion::Poseidon2Config = p3_recursion::Poseidon2Config::KOALA_BEAR_D4_W16;
+    fn enable(b: &mut p3_circuit::CircuitBuilder<Challenge>) {
+        b.enable_poseidon2_perm::<p3_poseidon2_circuit_air::KoalaBearD4Width16, _>(
+            p3_circuit::ops::generate_poseidon2_trace::<Challenge, p3_poseidon2_circuit_air::KoalaBearD4Width16>,
+            default_koalabear_poseidon2_16(),
+        );
+        b.enable_recompose::<F>(p3_circuit::ops::generate_recompose_trace::<F, Challenge>);
+    }
+    fn make_config() -> MyConfig {
+        let perm = default_koalabear_poseidon2_16();
+        let val_mmcs = HidingValMmcs::new(MyHash::new(perm.clone()), MyCompress::new(perm.clone()), 0, SmallRng::seed_from_u64(11));
+        // unequal proof-of-work bits (commit 0, query 3), as in recursion/examples (0 / 15): the two are easy to confuse
+        let fri = FriParameters { log_blowup: 2, log_final_poly_len: 0, max_log_arity: 1, num_queries: 2, commit_proof_of_work_bits: 0,
+            query_proof_of_work_bits: 3, mmcs: HidingChallengeMmcs::new(val_mmcs.clone()) };
+        MyConfig::new(MyPcs::new(Dft::default(), val_mmcs, fri, 2, SmallRng::seed_from_u64(1)), Challenger::new(perm))
+    }
+    fn fri_params() -> p3_recursion::FriVerifierParams {
+        p3_recursion::FriVerifierParams::with_mmcs(2, 0, 0, 3, P2)
+    }
+    fn fri_mut(p: &mut PcsProofT) -> &mut FriP {
+        &mut p.1
+    }
+    fn fri_t(t: &InnerFri) -> &FriT {
+        &t.inner_proof
+    }
+    fn v_extra(p: &mut PcsProofT, v: &mut super::V<F, Challenge>) {
+        for x in p.0.iter_mut().flatten().flatten().flatten() {
+            v("fri_random_opened_value", super::Loc::Priv, super::Slot::E(x));
+        }
+    }
+    fn t_extra(t: &InnerFri, v: &mut super::TV) {
+        for x in t.random_opened_values.rounds.iter().flatten().flatten().flatten() {
+            v("fri_random_opened_value", super::Loc::Priv, *x);
+        }
+    }
+    fn set_mmcs(r: &mut p3_circuit::CircuitRunner<'_, Challenge>, ops: &[p3_circuit::NonPrimitiveOpId], p: &PcsProofT, enabled: bool) -> Result<(), &'static str> {
+        if !enabled {
+            return Ok(());
+        }
+        p3_recursion::pcs::set_hiding_salted_fri_mmcs_private_data::<F, Challenge, HidingChallengeMmcs, HidingValMmcs, DIGEST_ELEMS>(r, ops, p, P2)
+    }
+    fn make_instances() -> (Vec<AirT>, Vec<p3_matrix::dense::RowMajorMatrix<F>>, Vec<Vec<F>>) {
+        let (ft, fp) = super::fib_trace::<F>(16);
+        (vec![super::TwoAir::Fib(p3_circuit::test_utils::FibonacciAir {})], vec![ft], vec![fp])
+    }
+    plain_batch_glue!();
+    batch_body!(proof);
+}
+
 // ---------------------------------------------------------------------------------------------------------------
 // Commands
 // ---------------------------------------------------------------------------------------------------------------
 
-pub const CONFIGS: &[&str] = &["uni_fib_bb", "uni_mul_kb_prep", "uni_gl_d2", "batch_two_airs_bb", "batch_lookups_bb", "batch_circuit_tables_kb", "batch_fib_kb_zk"];
+pub const CONFIGS: &[&str] = &["uni_fib_bb", "uni_mul_kb_prep", "uni_gl_d2", "batch_two_airs_bb", "batch_lookups_bb", "batch_circuit_tables_kb", "batch_fib_kb_zk", "batch_fib_kb_zk_pow"];
 
 fn make_driver(config: &str) -> Option<Box<dyn Driver>> {
     Some(match config {
@@ -1482,6 +1602,7 @@ fn make_driver(config: &str) -> Option<Box<dyn Driver>> {
         "batch_two_airs_bb" => batch_two_airs_bb::new(),
         "batch_lookups_bb" => batch_lookups_bb::new(),
         "batch_fib_kb_zk" | "uni_fib_kb_zk" => batch_fib_kb_zk::new(),
+        "batch_fib_kb_zk_pow" => batch_fib_kb_zk_pow::new(),
         "batch_circuit_tables_kb" | "batch_circuit_tables_bb" => batch_circuit_tables_kb::new(),
         _ => return None,
     })
@@ -1665,7 +1786,9 @@ pub fn cmd(args: &[String]) -> i32 {
                             let shape = format!("{}+{}", case.config.replace('_', "-"), el);
                             *local.totals.entry(format!("fault:verdict:{nv}/{cvd}")).or_default() += 1;
                             *local.totals.entry(format!("fault:{el}:{nv}/{cvd}")).or_default() += 1;
-                            if el == "none" && !(o.native.ok && o.circuit.ok) {
+                            // the honest statement: refused natively = the set-up is broken (driver error); refused by the circuit
+                                // only = a disagreement like any other (reported below)
+                            if el == "none" && !o.native.ok {
                                 local.errors.push(format!("case {gidx}: honest statement of {} not accepted by both sides: {nv}/{cvd}: {} | {}", case.config, o.native.msg, o.circuit.msg));
                             }
                             if o.native.panicked {
@@ -1710,7 +1833,8 @@ pub fn cmd(args: &[String]) -> i32 {
                             } else if o.circuit.build_error {
                                 format!("error-at-{}", o.circuit.stage)
                             } else if tg.starts_with("params.") {
-                                // an in-range verifier parameter is not a malformed shape: only panics / errors are of interest
+                                // an in-range verifier parameter is not a malformed shape: only panics / errors are of interest (the native
+                                // configuration is not re-parameterised here, so the two verdicts are not comparable)
                                 format!("params-accepted-{}", if o.circuit.ok { "satisfied" } else { "unsatisfied" })
                             } else {
                                 let weaker = o.circuit.ops < honest_ops;
